@@ -257,3 +257,165 @@ package gogu
 //@   invariant 0 <= w && w < len(mapSlice) && key in mapSlice[w] && mapSlice[w][key] == max
 //@   invariant forall j int :: 0 <= j && j < $i && key in mapSlice[j] ==> max >= mapSlice[j][key]
 //@   ghost w = $i when key in mapSlice[$i] && mapSlice[$i][key] > pre(max)
+
+// ---------------------------------------------------------------- C12: reshaping helpers
+
+//@ func gogu.Map
+//@   property C12 C16
+//@   calllog
+//@   requires fn != nil
+//@   ensures fresh(result) && len(result) == len(slice)
+//@   ensures forall j int :: 0 <= j && j < len(slice) ==> result[j] == call(fn, slice[j])
+//@   ensures logn == old(logn) + len(slice)
+//@   ensures forall j int :: 0 <= j && j < len(slice) ==> logf(old(logn)+j) == fn && loga0(old(logn)+j, slice[0]) == slice[j]
+//@ loop 1
+//@   invariant 0 <= $i && $i <= len(slice)
+//@   invariant forall j int :: 0 <= j && j < $i ==> result[j] == call(fn, slice[j])
+//@   invariant logn == old(logn) + $i
+//@   invariant forall j int :: 0 <= j && j < $i ==> logf(old(logn)+j) == fn && loga0(old(logn)+j, slice[0]) == slice[j]
+
+//@ func gogu.ForEach
+//@   property C12 C16
+//@   calllog
+//@   requires fn != nil
+//@   ensures logn == old(logn) + len(slice)
+//@   ensures forall j int :: 0 <= j && j < len(slice) ==> logf(old(logn)+j) == fn && loga0(old(logn)+j, slice[0]) == slice[j]
+//@ loop 1
+//@   invariant 0 <= $i && $i <= len(slice)
+//@   invariant logn == old(logn) + $i
+//@   invariant forall j int :: 0 <= j && j < $i ==> logf(old(logn)+j) == fn && loga0(old(logn)+j, slice[0]) == slice[j]
+
+//@ func gogu.ForEachRight
+//@   property C12 C16
+//@   calllog
+//@   requires fn != nil
+//@   ensures logn == old(logn) + len(slice)
+//@   ensures forall j int :: 0 <= j && j < len(slice) ==> logf(old(logn)+j) == fn && loga0(old(logn)+j, slice[0]) == slice[len(slice)-1-j]
+//@ loop 1
+//@   invariant -1 <= i && i < len(slice)
+//@   invariant logn == old(logn) + (len(slice)-1-i)
+//@   invariant forall j int :: 0 <= j && j < len(slice)-1-i ==> logf(old(logn)+j) == fn && loga0(old(logn)+j, slice[0]) == slice[len(slice)-1-j]
+
+//@ ufun foldTo(f typeof(fn), a seq[T1], off int, n int, z T2) T2
+//@ axiom foldTo_def: forall a seq[T1], off int, n int, z T2 :: { foldTo(fn, a, off, n, z) } foldTo(fn, a, off, n, z) == (n <= 0 ? z : call(fn, a[off+n-1], foldTo(fn, a, off, n-1, z)))
+
+//@ func gogu.Reduce
+//@   property C12 C16
+//@   calllog
+//@   requires fn != nil
+//@   ensures result == foldTo(fn, elems(slice), soff(slice), len(slice), initVal)
+//@   ensures logn == old(logn) + len(slice)
+//@   ensures forall j int :: 0 <= j && j < len(slice) ==> logf(old(logn)+j) == fn && loga0(old(logn)+j, slice[0]) == slice[j]
+//@ loop 1
+//@   invariant 0 <= $i && $i <= len(slice)
+//@   invariant actual == foldTo(fn, elems(slice), soff(slice), $i, initVal)
+//@   invariant logn == old(logn) + $i
+//@   invariant forall j int :: 0 <= j && j < $i ==> logf(old(logn)+j) == fn && loga0(old(logn)+j, slice[0]) == slice[j]
+
+//@ func gogu.Filter
+//@   property C12 C16
+//@   requires fn != nil
+//@   ghost pos map[int]int
+//@   ghost back map[int]int
+//@   ensures fresh(result)
+//@   ensures forall k int :: 0 <= k && k < len(result) ==> 0 <= pos[k] && pos[k] < len(slice) && result[k] == slice[pos[k]] && call(fn, slice[pos[k]])
+//@   ensures forall k int :: 1 <= k && k < len(result) ==> pos[k-1] < pos[k]
+//@   ensures forall j int :: 0 <= j && j < len(slice) && call(fn, slice[j]) ==> 0 <= back[j] && back[j] < len(result) && pos[back[j]] == j
+//@ loop 1
+//@   invariant fresh(res) && 0 <= $i && $i <= len(slice)
+//@   invariant forall k int :: 0 <= k && k < len(res) ==> 0 <= pos[k] && pos[k] < $i && res[k] == slice[pos[k]] && call(fn, slice[pos[k]])
+//@   invariant forall k int :: 1 <= k && k < len(res) ==> pos[k-1] < pos[k]
+//@   invariant forall j int :: 0 <= j && j < $i && call(fn, slice[j]) ==> 0 <= back[j] && back[j] < len(res) && pos[back[j]] == j
+//@   ghost pos[len(res)-1] = $i when call(fn, slice[$i])
+//@   ghost back[$i] = len(res)-1 when call(fn, slice[$i])
+
+//@ func gogu.DropWhile
+//@   property C12 C16
+//@   requires fn != nil
+//@   ghost pos map[int]int
+//@   ghost back map[int]int
+//@   ensures fresh(result)
+//@   ensures forall k int :: 0 <= k && k < len(result) ==> 0 <= pos[k] && pos[k] < len(slice) && result[k] == slice[pos[k]] && !call(fn, slice[pos[k]])
+//@   ensures forall k int :: 1 <= k && k < len(result) ==> pos[k-1] < pos[k]
+//@   ensures forall j int :: 0 <= j && j < len(slice) && !call(fn, slice[j]) ==> 0 <= back[j] && back[j] < len(result) && pos[back[j]] == j
+//@ loop 1
+//@   invariant fresh(result) && 0 <= $i && $i <= len(slice)
+//@   invariant forall k int :: 0 <= k && k < len(result) ==> 0 <= pos[k] && pos[k] < $i && result[k] == slice[pos[k]] && !call(fn, slice[pos[k]])
+//@   invariant forall k int :: 1 <= k && k < len(result) ==> pos[k-1] < pos[k]
+//@   invariant forall j int :: 0 <= j && j < $i && !call(fn, slice[j]) ==> 0 <= back[j] && back[j] < len(result) && pos[back[j]] == j
+//@   ghost pos[len(result)-1] = $i when !call(fn, slice[$i])
+//@   ghost back[$i] = len(result)-1 when !call(fn, slice[$i])
+
+//@ func gogu.DropRightWhile
+//@   property C12 C16
+//@   requires fn != nil
+//@   ghost pos map[int]int
+//@   ghost back map[int]int
+//@   ensures fresh(result)
+//@   ensures forall k int :: 0 <= k && k < len(result) ==> 0 <= pos[k] && pos[k] < len(slice) && result[k] == slice[pos[k]] && !call(fn, slice[pos[k]])
+//@   ensures forall k int :: 1 <= k && k < len(result) ==> pos[k-1] > pos[k]
+//@   ensures forall j int :: 0 <= j && j < len(slice) && !call(fn, slice[j]) ==> 0 <= back[j] && back[j] < len(result) && pos[back[j]] == j
+//@ loop 1
+//@   invariant fresh(result) && -1 <= i && i < len(slice)
+//@   invariant forall k int :: 0 <= k && k < len(result) ==> i < pos[k] && pos[k] < len(slice) && result[k] == slice[pos[k]] && !call(fn, slice[pos[k]])
+//@   invariant forall k int :: 1 <= k && k < len(result) ==> pos[k-1] > pos[k]
+//@   invariant forall j int :: i < j && j < len(slice) && !call(fn, slice[j]) ==> 0 <= back[j] && back[j] < len(result) && pos[back[j]] == j
+//@   ghost pos[len(result)-1] = pre(i) when !call(fn, slice[pre(i)])
+//@   ghost back[pre(i)] = len(result)-1 when !call(fn, slice[pre(i)])
+
+//@ func gogu.Partition
+//@   property C12 C16
+//@   requires fn != nil
+//@   ghost pos0 map[int]int
+//@   ghost back0 map[int]int
+//@   ghost pos1 map[int]int
+//@   ghost back1 map[int]int
+//@   ensures fresh(result[0]) && fresh(result[1])
+//@   ensures forall k int :: 0 <= k && k < len(result[0]) ==> 0 <= pos0[k] && pos0[k] < len(slice) && result[0][k] == slice[pos0[k]] && call(fn, slice[pos0[k]])
+//@   ensures forall k int :: 1 <= k && k < len(result[0]) ==> pos0[k-1] < pos0[k]
+//@   ensures forall j int :: 0 <= j && j < len(slice) && call(fn, slice[j]) ==> 0 <= back0[j] && back0[j] < len(result[0]) && pos0[back0[j]] == j
+//@   ensures forall k int :: 0 <= k && k < len(result[1]) ==> 0 <= pos1[k] && pos1[k] < len(slice) && result[1][k] == slice[pos1[k]] && !call(fn, slice[pos1[k]])
+//@   ensures forall k int :: 1 <= k && k < len(result[1]) ==> pos1[k-1] < pos1[k]
+//@   ensures forall j int :: 0 <= j && j < len(slice) && !call(fn, slice[j]) ==> 0 <= back1[j] && back1[j] < len(result[1]) && pos1[back1[j]] == j
+//@ loop 1
+//@   invariant 0 <= $i && $i <= len(slice)
+//@   invariant fresh(result[0]) && fresh(result[1]) && (sarr(result[0]) != sarr(result[1]) || sarr(result[0]) == 0)
+//@   invariant forall k int :: 0 <= k && k < len(result[0]) ==> 0 <= pos0[k] && pos0[k] < $i && result[0][k] == slice[pos0[k]] && call(fn, slice[pos0[k]])
+//@   invariant forall k int :: 1 <= k && k < len(result[0]) ==> pos0[k-1] < pos0[k]
+//@   invariant forall j int :: 0 <= j && j < $i && call(fn, slice[j]) ==> 0 <= back0[j] && back0[j] < len(result[0]) && pos0[back0[j]] == j
+//@   invariant forall k int :: 0 <= k && k < len(result[1]) ==> 0 <= pos1[k] && pos1[k] < $i && result[1][k] == slice[pos1[k]] && !call(fn, slice[pos1[k]])
+//@   invariant forall k int :: 1 <= k && k < len(result[1]) ==> pos1[k-1] < pos1[k]
+//@   invariant forall j int :: 0 <= j && j < $i && !call(fn, slice[j]) ==> 0 <= back1[j] && back1[j] < len(result[1]) && pos1[back1[j]] == j
+//@   ghost pos0[len(result[0])-1] = $i when call(fn, slice[$i])
+//@   ghost back0[$i] = len(result[0])-1 when call(fn, slice[$i])
+//@   ghost pos1[len(result[1])-1] = $i when !call(fn, slice[$i])
+//@   ghost back1[$i] = len(result[1])-1 when !call(fn, slice[$i])
+
+//@ func gogu.Drop
+//@   property C12 C13 C16
+//@   arith checked
+//@   requires n > MinInt
+//@   ensures 0 < n && n < len(slice) ==> result == slice[n:]
+//@   ensures 0 - len(slice) < n && n <= 0 ==> result == slice[0 : len(slice)+n]
+//@   ensures n >= len(slice) || n <= 0 - len(slice) ==> len(result) == 0 && fresh(result)
+
+//@ func gogu.Reverse
+//@   property C12 C16
+//@   modifies elems(sl)
+//@   ensures result == sl
+//@   ensures forall k int :: 0 <= k && k < len(sl) ==> sl[k] == old(sl[len(sl)-1-k])
+//@   ensures forall a int :: a < soff(sl) || a >= soff(sl) + len(sl) ==> elems(sl)[a] == old(elems(sl)[a])
+//@ loop 1
+//@   invariant 0 <= i && j == len(sl)-1-i && i <= j+1
+//@   invariant forall k int :: 0 <= k && k < i ==> sl[k] == old(sl[len(sl)-1-k]) && sl[len(sl)-1-k] == old(sl[k])
+//@   invariant forall k int :: i <= k && k <= j ==> sl[k] == old(sl[k])
+//@   invariant forall a int :: a < soff(sl) || a >= soff(sl) + len(sl) ==> elems(sl)[a] == old(elems(sl)[a])
+
+//@ func gogu.ToSlice
+//@   property C12 C16
+//@   ensures fresh(result) && len(result) == len(args)
+//@   ensures forall k int :: 0 <= k && k < len(args) ==> result[k] == args[k]
+
+//@ func gogu.swap
+//@   property C12
+//@   inline
